@@ -18,6 +18,7 @@ type Fragment struct {
 	nextTrunNr  uint32      // To handle multi-trun cases
 	EncOptimize EncOptimize // Bit field with optimizations being done at encoding
 	StartPos    uint64      // Start position in file added by parser
+	leadGap     uint64      // Decoded single-trun fragment: bytes between the mdat header and the trun's data
 }
 
 // NewFragment creates an empty MP4 Fragment.
@@ -347,9 +348,41 @@ func (f *Fragment) SetTrunDataOffsets() {
 		return truns[i].writeOrderNr < truns[j].writeOrderNr
 	})
 	dataOffset := f.Moof.Size() + f.Mdat.HeaderSize()
+	if !writeOrderSet {
+		dataOffset += f.leadGap
+	}
 	for _, trun := range truns {
 		trun.DataOffset = int32(dataOffset)
 		dataOffset += trun.SizeOfData()
+	}
+}
+
+// setDecodedLeadGap remembers, for a decoded fragment with a single trun, how far into the mdat payload
+// the trun's data starts, so that SetTrunDataOffsets keeps pointing at the data and not at the bytes before it.
+func (f *Fragment) setDecodedLeadGap() {
+	f.leadGap = 0
+	if f.Moof == nil || f.Mdat == nil {
+		return
+	}
+	var trun *TrunBox
+	for _, traf := range f.Moof.Trafs {
+		for _, tr := range traf.Truns {
+			if trun != nil {
+				return // More than one trun: SetTrunDataOffsets leaves the decoded offsets alone
+			}
+			trun = tr
+		}
+	}
+	if trun == nil {
+		return
+	}
+	payloadStart := f.Moof.Size() + f.Mdat.HeaderSize()
+	if !trun.HasDataOffset() || int64(trun.DataOffset) <= int64(payloadStart) {
+		return
+	}
+	gap := uint64(trun.DataOffset) - payloadStart
+	if gap <= f.Mdat.Size()-f.Mdat.HeaderSize() {
+		f.leadGap = gap
 	}
 }
 
